@@ -239,9 +239,9 @@ Lemma insert_key_shift t x l :
   insert_key fst (shiftp t x) (map (shiftp t) l) = map (shiftp t) (insert_key fst x l).
 Proof.
   induction l as [|y l IH]; [reflexivity|]. cbn [map insert_key].
-  replace (fst (shiftp t x) <? fst (shiftp t y)) with (fst x <? fst y)
+  replace (fst (shiftp t x) <=? fst (shiftp t y)) with (fst x <=? fst y)
     by (unfold shiftp; cbn [fst]; lia).
-  destruct (fst x <? fst y); [reflexivity|]. cbn [map]. f_equal. apply IH.
+  destruct (fst x <=? fst y); [reflexivity|]. cbn [map]. f_equal. apply IH.
 Qed.
 
 Lemma sort_key_shift t l : sort_key fst (map (shiftp t) l) = map (shiftp t) (sort_key fst l).
